@@ -177,7 +177,7 @@ def run_program(init, ops, np, salt=0):
                           (0 if r_ == 1 else (2 * i - (r_ - 1)) ** 2 * (c_ - 1 if c_ > 1 else 1) ** 2) for i, j in zip(ii.tolist(), jj.tolist())}
                     if len(u2) >= 2:
                         _, sph = fit_sphere(d)
-                        ok = bool(np.abs(sph).max() <= 1e-7 * (np.nanmax(np.abs(d)) + 1)) if sph.size else True
+                        ok = bool(core.maxabs(sph) <= 1e-7 * (np.nanmax(np.abs(d)) + 1)) if sph.size else True
                 elif name == 'stats':
                     ok = nanstats_ok(obj, np)
                 elif name == 'recenter':
